@@ -113,6 +113,22 @@ def tag_of(bus: str):
     return list(b) + [0] * (4 - len(b))
 
 
+def _const_byte(eng, pc, x):
+    """A byte that the optimiser folded into a wider store together with symbolic data can come back as a term: it is a
+    constant if the path condition admits exactly one value for it (decided by the solver, not by the simplifier)."""
+    if isinstance(x, int):
+        return x
+    x = z3.simplify(x)
+    if z3.is_bv_value(x):
+        return x.as_long()
+    r, mdl = eng.check(pc=list(pc))
+    if r != "sat":
+        return x
+    c = mdl.eval(x, model_completion=True)
+    r2, _ = eng.check(x != c, pc=list(pc))
+    return c.as_long() if r2 == "unsat" else x
+
+
 # ------------------------------------------------------------------------------------------------ machine setup
 def _find(mod, frag):
     r = [f for f in mod.funcs if frag in f]
@@ -554,7 +570,7 @@ def c18_dyn_case(args):
                     elif fa is None:
                         viol, why = z3.BoolVal(False), "both give no frame"
                     else:
-                        da, db = fa[6], fb[6]
+                        da, db = _const_byte(eng, pc, fa[6]), _const_byte(eng, pc, fb[6])
                         if not (isinstance(da, int) and isinstance(db, int)):
                             raise EngineLimit("dlc is symbolic")
                         # the open finding explains a difference only if the WHOLE dynamic frame is the static header with
